@@ -80,6 +80,9 @@ pub fn relay(n: u8) -> RelayUrl {
 
 #[derive(Clone, Debug, PartialEq, Eq, Hash, Serialize, Deserialize)]
 pub enum SOp {
+    /// the SQLite handle is dropped and the file opened again (the memory backend and the model
+    /// are not touched): everything written so far must be there
+    Reopen,
     SaveGroup { g: u8, n: u8, name: u8, epoch: u8, state: u8, admins: u8, last: u8, img: u8, su: u8 },
     ReplaceRelays { g: u8, mask: u8 },
     SaveSecret { g: u8, epoch: u8, val: u8 },
@@ -376,6 +379,7 @@ pub fn apply_real<S: MdkStorageProvider>(s: &S, op: &SOp, now_far: u64) -> Value
         SOp::Rollback { g, name } => res(s.rollback_group_to_snapshot(&gid(*g % N_GROUPS), &snap_name(*name))),
         SOp::Release { g, name } => res(s.release_group_snapshot(&gid(*g % N_GROUPS), &snap_name(*name))),
         SOp::Prune { all } => res(s.prune_expired_snapshots(if *all { now_far } else { 0 })),
+        SOp::Reopen => res::<(), ()>(Ok(())),
         SOp::WriteGroupData { g, kind, val } => res(gd!(s, *g % N_GROUPS, *kind, write * val)),
         SOp::DeleteGroupData { g, kind } => res(gd!(s, *g % N_GROUPS, *kind, delete)),
         SOp::QueueProposal { g, r, val } => res(
@@ -702,6 +706,7 @@ impl Model {
                 self.snapshots.remove(&(*g % N_GROUPS, snap_name(*name)));
                 ok(())
             }
+            SOp::Reopen => ok(()),
             SOp::Prune { all } => {
                 if *all {
                     let n = self.snapshots.len();
